@@ -58,6 +58,8 @@ type localMacroFunc struct {
 	name     string
 	params   []string
 	template ast.Expr
+
+	expanding bool // the helper is being expanded: its own expansion must not expand it again
 }
 
 type converter struct {
@@ -256,6 +258,14 @@ func (conv *converter) findLocalMacro(call *ast.CallExpr) *localMacroFunc {
 }
 
 func (conv *converter) expandMacro(macro *localMacroFunc, call *ast.CallExpr) ir.FilterExpr {
+	// A helper can name itself when a package-level function of the same name exists (or when it is
+	// passed to itself as an argument); expanding it again would never end.
+	if macro.expanding {
+		panic(conv.errorf(call, "%s: recursive helper functions are not supported", macro.name))
+	}
+	macro.expanding = true
+	defer func() { macro.expanding = false }()
+
 	// Check that call args are OK.
 	// Since "function calls" are implemented as a macro expansion here,
 	// we don't allow arguments that have a non-trivial evaluation.
